@@ -964,6 +964,9 @@ def run(tier):
         # a wipe one byte longer than its buffer overwrites the neighbouring scratch or the frame)
         from . import c15 as _c15
         _c15.j3(prog, rep, units=("alg/sha256.c", "alg/sha1.c", "alg/md5.c"))
+        # one transform per block: a taken accelerated case of SHA256_Transform ends the function (rule shared with C03)
+        from . import c03 as _c03
+        _c03.g4_exclusive(ir.Program(["alg/sha256.c", "alg/sha256_sse2.c", "alg/sha256_shani.c"], cfg), rep)
         if k11_vect(prog, rep) < 6:
             rep.defer_broken("K11: fewer than 6 word-vector helpers found in the hash units")
         ctx_typestate(prog, rep, ["alg/sha256.c", "alg/sha1.c", "alg/md5.c"])
